@@ -1,0 +1,63 @@
+//go:build verif
+
+package syncer
+
+import (
+	"bufio"
+	"context"
+
+	"github.com/mgtv-tech/redis-GunYu/pkg/redis/client"
+	usync "github.com/mgtv-tech/redis-GunYu/pkg/sync"
+)
+
+// Thin wrappers that let the external verification harness reach unexported
+// units.  Compiled only with the `verif` build tag.
+
+// VerifCmd mirrors cmdExecution.
+type VerifCmd struct {
+	Cmd    string
+	Args   [][]byte
+	Offset int64
+	Db     int
+}
+
+// VerifParseAof runs parseAofCommand over reader and returns what it emitted.
+func (ro *RedisOutput) VerifParseAof(ctx context.Context, reader *bufio.Reader, startOffset int64, startDb int) ([]VerifCmd, error) {
+	ro.startDbId = startDb
+	wait := usync.NewWaitCloserFromContext(ctx, nil)
+	sendBuf := make(chan cmdExecution, 1<<16)
+	err := ro.parseAofCommand(wait, reader, startOffset, sendBuf)
+	close(sendBuf)
+	var out []VerifCmd
+	for it := range sendBuf {
+		vc := VerifCmd{Cmd: it.Cmd, Offset: it.Offset, Db: it.Db}
+		for _, a := range it.Args {
+			vc.Args = append(vc.Args, a.([]byte))
+		}
+		out = append(out, vc)
+	}
+	return out, err
+}
+
+// VerifSendCmdsBatch runs sendCmdsBatch over a harness-owned channel.
+func (ro *RedisOutput) VerifSendCmdsBatch(wait usync.WaitCloser, conn client.Redis, runId string, in <-chan VerifCmd, txn bool, pipeline bool) error {
+	sendBuf := make(chan cmdExecution)
+	go func() {
+		defer close(sendBuf)
+		for it := range in {
+			ce := cmdExecution{Cmd: it.Cmd, Offset: it.Offset, Db: it.Db}
+			for _, a := range it.Args {
+				ce.Args = append(ce.Args, a)
+			}
+			select {
+			case sendBuf <- ce:
+			case <-wait.Done():
+				return
+			}
+		}
+	}()
+	return ro.sendCmdsBatch(wait, conn, runId, sendBuf, txn, pipeline)
+}
+
+// VerifSetStartDb sets the database a resumed run re-selects.
+func (ro *RedisOutput) VerifSetStartDb(db int) { ro.startDbId = db }
